@@ -15,7 +15,6 @@ import (
 // ---------- generators ----------
 var R *rng
 
-
 var numPool = []float64{0, 1, -1, 1.5, 2, 3, 10, 0.1, 0.2, 100, -7.25, 1234, 1e-9, 999999999999999}
 
 func genNum() *TV {
@@ -48,7 +47,9 @@ func genNum() *TV {
 
 var strPool = []string{"", "abc", "abcDEF", "x", "hello world", "12", "1.5", "a,b", "é"}
 
-func genStr() *TV { return &TV{T: "str", N: btoi(R.Intn(8) == 0), V: hx(strPool[R.Intn(len(strPool))])} }
+func genStr() *TV {
+	return &TV{T: "str", N: btoi(R.Intn(8) == 0), V: hx(strPool[R.Intn(len(strPool))])}
+}
 func btoi(b bool) int {
 	if b {
 		return 1
@@ -417,4 +418,3 @@ func genDirectedPred(el *TV, depth int) string {
 	}
 	return strings.Join(ps, ",")
 }
-
